@@ -7,7 +7,7 @@ open Flowdyn
 
 def showGroups (gs : List (List ℚ)) : String := " | ".intercalate (gs.map showRats)
 
-/-- `mesh1d uni n L x0` | `mesh1d refined n L ratio a b` → `xf | xc | vol | nc1` -/
+/-- `mesh1d uni n L x0` | `mesh1d refined n L ratio a b` → `xf | xc | vol | nc1` (`nc1 = refinedNc1 n a b`) -/
 def handleMesh (args : List String) : Option String := do
   match args with
   | "uni" :: ns :: rest =>
@@ -18,7 +18,7 @@ def handleMesh (args : List String) : Option String := do
   | "refined" :: ns :: rest =>
     let n ← ns.toNat?
     let [L, ratio, a, b] ← parseRats rest | none
-    let nc1 := (((n : ℚ) * a) / (a + b)).floor.toNat
+    let nc1 := refinedNc1 n a b
     let m := refinedMesh n L ratio a b nc1
     some (showGroups [tab (n+1) m.xf, tab n m.xc, tab n m.vol, [(nc1 : ℚ)]])
   | "avg" :: rest =>
